@@ -233,12 +233,6 @@ func CompareLex(s1 string, s2 string) int {
 	if s1 == s2 {
 		return 0
 	}
-	if strings.Contains(s1, s2) {
-		return 1
-	}
-	if strings.Contains(s2, s1) {
-		return -1
-	}
 
 	limit := len(s1)
 	if len(s2) < limit {
@@ -251,6 +245,11 @@ func CompareLex(s1 string, s2 string) int {
 		if c != 0 {
 			break
 		}
+	}
+
+	// When one string is a prefix of the other, the shorter one is the smaller.
+	if c == 0 {
+		c = cmp.Compare(len(s1), len(s2))
 	}
 
 	return c
